@@ -116,6 +116,9 @@ func gateRegister(id uint64) {
 	gmu.Lock()
 	gbyGo[goid()] = gbyID[id]
 	gmu.Unlock()
+	// every gated request parks before its first instruction (site "start"; passes through when a
+	// site list is given that does not name it), so that the schedule also orders the request entries
+	gatePoint("start", id)
 }
 
 func gateDone(id uint64) {
